@@ -3,10 +3,13 @@ from pyvc.contract import Contract, Int, List, NpArr
 
 MISC = 'tenpy/tools/misc.py'
 
-_IS_PERM = ['forall(0, len(perm), lambda j: 0 <= perm[j] < len(perm))',
-            'forall2(0, len(perm), lambda p, q: implies(p != q, perm[p] != perm[q]))',
-            # onto (follows from the two lines above by counting; stated, since the solver does no pigeonhole argument)
-            'forall(0, len(perm), lambda k: exists(0, len(perm), lambda j: perm[j] == k))']
+# "perm is a permutation of 0..n-1", stated with a witness of bijectivity instead of an existential (the solver does no
+# pigeonhole argument and existentials make it unstable): `inv0` is a ghost parameter, any array that is a two-sided
+# inverse of perm.  Every permutation has exactly one, so nothing is lost.
+_IS_PERM = ['len(inv0) == len(perm)',
+            'forall(0, len(perm), lambda j: 0 <= perm[j] < len(perm) and 0 <= inv0[j] < len(perm))',
+            'forall(0, len(perm), lambda j: inv0[perm[j]] == j)',
+            'forall(0, len(perm), lambda j: perm[inv0[j]] == j)']
 
 
 def _hunt():
@@ -25,11 +28,11 @@ def _hunt():
 # Used by combine/split (C01, C06), sort_legcharge, permute, from_product_mps_covering (C07), MPO sorting (C10), lattice orders (C19).
 Contract(
     target=f'{MISC}::inverse_permutation', props=['C01', 'C06', 'C07', 'C19'], hunt=_hunt,
-    params={'perm': NpArr('int')},
+    params={'perm': NpArr('int'), 'inv0': NpArr('int')},
     requires=_IS_PERM,
     ensures=['len(result) == len(perm)',
-             'forall(0, len(perm), lambda j: result[perm[j]] == j)',
-             'forall(0, len(perm), lambda j: perm[result[j]] == j)',
-             'forall(0, len(perm), lambda j: 0 <= result[j] < len(perm))',
+             # the result is *the* inverse: with the precondition on inv0 this is "inv_perm[perm[j]] = j = perm[inv_perm[j]]"
+             # and 0 <= inv_perm[j] < n
+             'forall(0, len(perm), lambda j: result[j] == inv0[j])',
              'forall(0, len(perm), lambda j: perm[j] == old(perm)[j])'],
 )
